@@ -59,6 +59,10 @@ W = [
          input=''.join('{"x": %d}\n' % ((i * 7919) % 30011) for i in range(30000)), json_lines=[[{'x': 0}]], max_s=30),
     dict(id='nested-filter-linear', commit='72b75cd', props=['C04', 'C02', 'C11'], query='(' * 28 + 'a' + ')' * 28 + ' | count',
          input='a\nb\n', json_lines=[[{'_count': 1}]], max_s=10),
+    dict(id='space-inside-parens', commit='4f14fd7', props=['C20', 'C04'], query='( a OR zzz ) | json | where ( x == 1 ) | sum( x ) as s',
+         input=J({'x': 1, 'k': 'a'}, {'x': 2, 'k': 'a'}), json_lines=[[{'s': 1}]]),
+    dict(id='space-after-not', commit='7a275bd', props=['C20', 'C04'], query='* | json | where ! isNull(x) | count',
+         input=J({'x': 1}, {'y': 2}), json_lines=[[{'_count': 1}]]),
 ]
 
 
